@@ -190,6 +190,11 @@ def run(prog, rep, tier):
         rep.ob('R14.6', not early, 'R14.6|%s|only-zero-bytes-ends-the-stream' % lu.nkey, 'after the chunk read, Ok is returned without caching only when 0 bytes were read' if not early else
                'the unauthenticated loader reports the end of the stream (%s) although chunk data was read (count not 0): the last bytes pushed out by a flush are dropped' % ', '.join(early), lu.loc(r1.idx))
 
+    # ---------------- R14.7 "in authenticated mode at least everything in completed encryption chunks": a completed chunk is read completely before its tag
+    # is checked, however the source splits its reads (= R13.3 / R03.7)
+    from .c13 import chunk_loads_complete
+    chunk_loads_complete(prog, rep, 'R14.7')
+
     # ---------------- R14.3 decoder drained before end of input is reported
     rd = one_body(prog, rep, 'R14.3', 'mla', adt='layers::compress::CompressionLayerFailSafeReader', name='read', trait='std::io::Read')
     if rd is not None:
